@@ -559,6 +559,7 @@ class ExecuteWs(Contract):
     def native_names(self, inputs, args, kwargs):
         out = {k: inputs.get(k) for k in ("ws_url", "ws_headers", "ws_origin", "init_payload", "kwargs", "query",
                                           "operation_name", "variables")}
+        out["ws_origin"] = out.get("ws_origin") or None        # the attribute the contract speaks of: the constructor stores None for an empty origin
         out["first_frame"] = F.abstract_text(inputs["first_frame"])
         out["frames"] = [F.abstract_text(f) for f in inputs["frames"]]
         out["operation_id"] = "op-uuid"
